@@ -22,6 +22,7 @@ import (
 
 // World is everything one trace runs against.
 type World struct {
+	fillSeq int64
 	cfg    J
 	driver string
 	dir    string
@@ -371,6 +372,18 @@ func (w *World) storeOp(op J) (J, error) {
 			concrete = w.names.wallet(id)
 		}
 		return res(s.CheckAndSaveNonce(concrete, w.clock.nonceReal(num(op, "v"))), nil), nil
+	case "NonceFill":
+		// n other identities (node-id sized names, outside the model's name space) send a request each, their clocks
+		// `ahead` seconds fast: the nonces of one identity never affect another identity
+		base := w.clock.nonceReal((w.clock.now() + num(op, "ahead")) * 1000)
+		w.fillSeq++
+		for i := int64(0); i < num(op, "n"); i++ {
+			id := fmt.Sprintf("%0120x%08x", w.fillSeq, i)
+			if err := s.CheckAndSaveNonce(id, base+i); err != nil {
+				return nil, fmt.Errorf("NonceFill: %v", err)
+			}
+		}
+		return res(nil, nil), nil
 	case "Stats":
 		st, err := s.Stats()
 		if err != nil {
@@ -453,7 +466,7 @@ func (w *World) project() (J, error) {
 				w.tr.flagBad("GetNodeBalance(%s) of an unregistered node: %v", name, err)
 			}
 		} else if err != nil {
-			return nil, err
+			return nil, fmt.Errorf("GetNode(%s): %v", name, err)
 		} else {
 			nodes[name] = w.nodeRec(*n)
 			w.keep(nil, n)
@@ -476,7 +489,7 @@ func (w *World) project() (J, error) {
 				}
 				link[name] = a
 			} else if err != store.ErrNotAuthorized {
-				return nil, err
+				return nil, fmt.Errorf("IsAccountNode(%s, %s): %v", a, name, err)
 			}
 		}
 	}
@@ -485,19 +498,19 @@ func (w *World) project() (J, error) {
 	for _, a := range w.acctNames {
 		b, err := s.GetAccountBalance(store.Account(w.names.wallet(a)))
 		if err != nil {
-			return nil, err
+			return nil, fmt.Errorf("GetAccountBalance(%s): %v", a, err)
 		}
 		acct[a] = w.balRec(b)
 		w.keep(&b, nil)
 		ids, err := s.GetAccountNodes(store.Account(w.names.wallet(a)))
 		if err != nil {
-			return nil, err
+			return nil, fmt.Errorf("GetAccountNodes(%s): %v", a, err)
 		}
 		anodes[a] = w.idList(ids)
 	}
 	st, err := s.Stats()
 	if err != nil {
-		return nil, err
+		return nil, fmt.Errorf("Stats: %v", err)
 	}
 	return J{"node": nodes, "peers": peers, "bal": bal, "link": link, "acct": acct, "anodes": anodes, "stats": w.statsRec(st),
 		"snap": w.snapshotsIntact()}, nil
